@@ -17,13 +17,18 @@
 //	                 options on an existing store) | OpenBtree error (missing store) | Commit with a cancelled
 //	                 context. Names are reused, so "create, abort, create again with other options" occurs.
 //	                 site-class = <ending>+<what the transaction logged last: after-create | after-active-add>.
-//	create-race      2..6 goroutines, each its own transaction, create the same name (same or differing
-//	                 options), add items, commit.
+//	create-race      2..6 creators, each its own transaction, create the same name (same or differing
+//	                 options), add items, end by commit or rollback. Quick tier: deterministic schedules only
+//	                 (scripted interleaving from one goroutine; "gated" = the NewBtree lookup/add race replayed
+//	                 through a gate on the store-list lock, see gateCache); thorough tier adds really parallel
+//	                 goroutines. Every Commit is bounded by a 10 s context deadline (inconclusive when hit).
 //	                 WEAKER READING CHOSEN DELIBERATELY: only "at most one entry with that name; if at least
 //	                 one creator committed the store exists, opens, Count()==scan length, its options are one
 //	                 creator's options and its items were written by some creator" is asserted. That every
 //	                 committed creator's items survive is NOT asserted (README "Swarm Computing": the un-seeded
 //	                 first commit may suffer a documented "random drop"); lost items are only counted.
+//	                 site-class = add-race-loser | creator-rolled-back | creator-commit-failed | opener-aborted |
+//	                 all-committed | none-committed (| creator-aborted in the parallel modes), see raceSite.
 //	remove-recreate  create + populate + commit (1..3 commits), RemoveBtree, observe, re-create under the same
 //	                 name with flipped slot length / uniqueness / value placement, populate, observe; layouts
 //	                 single folder and replicated (2 stores folders + 1+1 erasure coding on 2 more folders,
